@@ -28,27 +28,16 @@ def showTokens (s : Sentence) : String :=
       | _, _, _ => .panic "?"
   showRes (joinWith ".") "I" (go toks)
 
-def showCands (cs : List (List (List Char)) × List Int) : String :=
-  -- mirrors Token::tag_candidates
-  let rec go : List (List (List Char)) → List Int → List String
-    | [], _ => []
-    | cands :: r, scores =>
-      if cands.length = 1 then
-        (strToHex (cands.headD []) ++ "=0") :: go r scores
-      else
-        (joinWith "+" ((cands.zip (scores.take cands.length)).map fun (c, x) => strToHex c ++ "=" ++ toString x))
-          :: go r (scores.drop cands.length)
-  joinWith "/" (go cs.1 cs.2)
+def showCands (cs : List (List (List Char × Int))) : String :=
+  joinWith "/" (cs.map fun inner => joinWith "+" (inner.map fun (c, x) => strToHex c ++ "=" ++ toString x))
 
 def showObsSel (sel : String) (s : Sentence) : String :=
   let scores := showRes (fun xs => joinWith "." (xs.map toString)) "S" s.boundaryScores
   let cands :=
     "C" ++ joinWith "." ((iterTokens s.bounds).map fun (_, en) =>
-      if s.tagScores.isEmpty then "!p" else
-      match s.tagScores[en - 1]? with
-      | some (some cs) => showCands cs
-      | some none => ""
-      | none => "!p")
+      match s.tagCandidates en with
+      | .ok cs => showCands cs
+      | _ => "!p")
   joinWith ";" <| List.filter (fun f => sel.isEmpty || sel.toList.contains (f.toList.headD ' ')) [
     "T" ++ strToHex s.text,
     "Y" ++ String.ofList (s.types.map fun t => hexDigit t),
